@@ -44,7 +44,8 @@ func CheckMnemonic(mnemonic string, lg Language) error {
 	csBig := new(big.Int).And(entBig, big.NewInt(shift-1))
 
 	// get real entropy
-	entBytes := entBig.Quo(entBig, big.NewInt(shift)).Bytes()
+	entBytes := make([]byte, wordCount/3*4)
+	entBig.Quo(entBig, big.NewInt(shift)).FillBytes(entBytes)
 	// get checksum from real entropy
 	hash := sha256.New()
 	_, _ = hash.Write(entBytes)
